@@ -119,13 +119,29 @@ class Ctx:
         When every semantic rule is fully decided and holds, a structural rule that does not find its shape -- or finds
         another one -- says nothing about behaviour: its VIOLATED / UNRECOGNISED outcomes become HOLDS with that
         explanation.  When a semantic rule reports anything, the structural reports stay (they localise the defect)."""
+        undecided_only = False
         for sid in semantic:
             r = self.rules.get(sid)
             if r is None:
                 return
             n_h = sum(1 for i in r.instances if i[1] == "HOLDS")
+            if any(i[1] == "VIOLATED" for i in r.instances):
+                return  # the semantic rule reports a defect: the structural reports stay, they localise it
             if any(i[1] != "HOLDS" for i in r.instances) or n_h < max(1, r.floor):
-                return
+                undecided_only = True
+        if undecided_only:
+            # The rule that decides this clause from behaviour could not be evaluated on this tree, and the structural rule only says
+            # `not written the way I know`: that is no evidence of a defect.  Its violations become `cannot decide` (exit 2).
+            for rid in structural:
+                r = self.rules.get(rid)
+                if r is None:
+                    continue
+                for k, (site, outcome, detail) in enumerate(r.instances):
+                    if outcome == "VIOLATED" and (only is None or only in str(site)):
+                        r.instances[k] = (site, "UNRECOGNISED", f"{detail} -- but {', '.join(semantic)}, which decide(s) this clause from behaviour, could not be evaluated: not reported as a violation")
+                        self.errors.append(f"{rid} {site}: code shape differs from the pattern this rule knows ({detail[:120]}) and {', '.join(semantic)} could not decide")
+                self.violations = [v for v in self.violations if v.rule != rid or (only is not None and only not in f"{v.relpath}::{v.qualname}: {v.construct}")]
+            return
         why = "code shape differs from the pattern this rule knows; the behaviour it stands for is decided by " + ", ".join(semantic)
         for rid in structural:
             r = self.rules.get(rid)
